@@ -114,6 +114,32 @@ def run_cases(ck, res, n_cases, n_interval):
                 ck.fail(f'{mode}/{what}@{"lo" if i == 0 else "hi"}',
                         f'{mode}{" (ith_unit)" if unit else ""}: enforced {what} at the constrained point is {got!r}, prescribed {exp!r}',
                         inp, expected=exp, actual=got)
+        # ---- a network that pre-processes its input IN PLACE (normalisation layers written with sub_/div_, inplace=True):
+        #      the library hands networks a fresh copy of the coordinates, so the caller's samples and the enforced
+        #      values at the constrained points must be unaffected
+        if ci % 5 == 1 and mode in ('IVP_value', 'DBVP', 'DEBVP_dd'):
+            class _InPlace(torch.nn.Module):
+                def __init__(self, base):
+                    super().__init__()
+                    self.base = base
+
+                def forward(self, x):
+                    x.sub_(0.375).mul_(1.5)
+                    return self.base(x)
+            try:
+                tp = enga.col(torch, pts, grad=False)
+                up = cond.enforce(_InPlace(net), tp)
+                upv = [float(x) for x in up.detach().reshape(-1)]
+                if [float(x) for x in tp.reshape(-1)] != [float(x) for x in pts]:
+                    ck.fail(f'{mode}/samples-modified', f'{mode}.enforce let an in-place network modify the caller\'s sample tensor', dict(inp, network='in-place'))
+                for (pt, what, exp) in boundary_expect(mode, pv):
+                    i = pts.index(pt)
+                    if what == 'value' and not enga.close(upv[i], exp, scale, rel=enga.EXACT):
+                        ck.fail(f'{mode}/value@{"lo" if i == 0 else "hi"}/in-place-network',
+                                f'{mode}: with a network acting in place on its input the enforced value at the constrained point is {upv[i]!r}, prescribed {exp!r}',
+                                dict(inp, network='in-place'), expected=exp, actual=upv[i])
+            except Exception as e:
+                ck.fail(f'{mode}/enforce-raises/in-place-network', f'enforce raised {type(e).__name__}: {e}', dict(inp, network='in-place'))
         # ---- the same under default dtype float32 with explicit float64 samples: a Python number that the code turns into
         #      a default-dtype tensor (as_tensor, torch.tensor(...)) silently loses precision; exactness must not depend on it
         if ci % 4 == 0:
